@@ -38,6 +38,8 @@ VARIABLES
   bcAlive,    \* [BCs -> BOOLEAN]
   bcC,        \* [BCs -> content id]
   bcDirty,    \* [BCs -> SUBSET Sides]   dirty BoundaryFaces
+  bcPer,      \* [BCs -> SUBSET Sides]   sides whose `periodic' flag is set (part of the BC content; kept
+              \*                         explicitly so that switching it ON and OFF are different transitions)
   everShared, \* [BCs -> BOOLEAN]        the object was ever referred to by two variables
   alive,      \* [Vars -> BOOLEAN]
   bcOf,       \* [Vars -> BCs]
@@ -49,9 +51,9 @@ VARIABLES
   use,        \* what the last solve used: [var, cache, bc, exists]  (history, for C09)
   last        \* [name, args]  (history, for replay)
 
-vars == <<bcAlive, bcC, bcDirty, everShared, alive, bcOf, intC, ghostFrom, cacheFrom,
+vars == <<bcAlive, bcC, bcDirty, bcPer, everShared, alive, bcOf, intC, ghostFrom, cacheFrom,
           valDirty, precalc, use, last>>
-view == <<bcAlive, bcC, bcDirty, everShared, alive, bcOf, intC, ghostFrom, cacheFrom,
+view == <<bcAlive, bcC, bcDirty, bcPer, everShared, alive, bcOf, intC, ghostFrom, cacheFrom,
           valDirty, precalc, use>>
 
 AliveVars == {v \in Vars : alive[v]}
@@ -76,6 +78,7 @@ Init ==
   /\ bcAlive = [b \in BCs |-> FALSE]
   /\ bcC = [b \in BCs |-> 0]
   /\ bcDirty = [b \in BCs |-> {}]
+  /\ bcPer = [b \in BCs |-> {}]
   /\ everShared = [b \in BCs |-> FALSE]
   /\ alive = [v \in Vars |-> FALSE]
   /\ bcOf = [v \in Vars |-> CHOOSE b \in BCs : TRUE]
@@ -96,6 +99,7 @@ NewBC(b) ==
   /\ bcDirty' = [bcDirty EXCEPT ![b] = {}]
   /\ everShared' = [everShared EXCEPT ![b] = FALSE]
   /\ use' = NoUse
+  /\ bcPer' = [bcPer EXCEPT ![b] = {}]
   /\ last' = [name |-> "NewBC", args |-> <<b>>]
   /\ UNCHANGED <<alive, bcOf, intC, ghostFrom, cacheFrom, valDirty, precalc>>
 
@@ -119,7 +123,7 @@ NewVar(v, b, pc) ==
   /\ everShared' = [everShared EXCEPT ![b] = everShared[b] \/ UsersOf(b) # {}]
   /\ use' = NoUse
   /\ last' = [name |-> "NewVar", args |-> <<v, b, pc>>]
-  /\ UNCHANGED <<bcAlive, bcC, bcDirty>>
+  /\ UNCHANGED <<bcAlive, bcC, bcDirty, bcPer>>
 
 (* CellVariable(mesh, value): creates its own default BC object *)
 NewVarDefault(v, b) ==
@@ -132,6 +136,7 @@ NewVarDefault(v, b) ==
   /\ ghostFrom' = [ghostFrom EXCEPT ![v] = <<FreshInt, FreshBC>>]
   /\ cacheFrom' = [cacheFrom EXCEPT ![v] = FreshBC]
   /\ use' = NoUse
+  /\ bcPer' = [bcPer EXCEPT ![b] = {}]
   /\ last' = [name |-> "NewVarDefault", args |-> <<v, b>>]
 
 (* face.a = x, face.a[sl] = x, defaultNoFlux / fixedValue / fixedGradient / newtonCooling,
@@ -140,6 +145,7 @@ EditBC(b, s, how) ==
   /\ bcAlive[b] /\ s \in Sides
   /\ bcC' = [bcC EXCEPT ![b] = FreshBC]
   /\ bcDirty' = [bcDirty EXCEPT ![b] = @ \cup {s}]
+  /\ bcPer' = [bcPer EXCEPT ![b] = IF how # "periodic" THEN @ ELSE IF s \in @ THEN @ \ {s} ELSE @ \cup {s}]
   /\ use' = NoUse
   /\ last' = [name |-> "EditBC", args |-> <<b, s, how>>]
   /\ UNCHANGED <<bcAlive, everShared, alive, bcOf, intC, ghostFrom, cacheFrom, valDirty, precalc>>
@@ -151,19 +157,19 @@ ResetBCFlag(b) ==
   /\ bcDirty' = [bcDirty EXCEPT ![b] = {}]
   /\ use' = NoUse
   /\ last' = [name |-> "ResetBCFlag", args |-> <<b>>]
-  /\ UNCHANGED <<bcAlive, bcC, everShared, alive, bcOf, intC, ghostFrom, cacheFrom, valDirty, precalc>>
+  /\ UNCHANGED <<bcAlive, bcC, bcPer, everShared, alive, bcOf, intC, ghostFrom, cacheFrom, valDirty, precalc>>
 SetFaceFlag(b, s, val) ==
   /\ ManualReset /\ bcAlive[b] /\ s \in Sides
   /\ bcDirty' = [bcDirty EXCEPT ![b] = IF val THEN @ \cup {s} ELSE @ \ {s}]
   /\ use' = NoUse
   /\ last' = [name |-> "SetFaceFlag", args |-> <<b, s, val>>]
-  /\ UNCHANGED <<bcAlive, bcC, everShared, alive, bcOf, intC, ghostFrom, cacheFrom, valDirty, precalc>>
+  /\ UNCHANGED <<bcAlive, bcC, bcPer, everShared, alive, bcOf, intC, ghostFrom, cacheFrom, valDirty, precalc>>
 SetValueFlag(v, val) ==
   /\ ManualReset /\ alive[v]
   /\ valDirty' = [valDirty EXCEPT ![v] = val]
   /\ use' = NoUse
   /\ last' = [name |-> "SetValueFlag", args |-> <<v, val>>]
-  /\ UNCHANGED <<bcAlive, bcC, bcDirty, everShared, alive, bcOf, intC, ghostFrom, cacheFrom, precalc>>
+  /\ UNCHANGED <<bcAlive, bcC, bcDirty, bcPer, everShared, alive, bcOf, intC, ghostFrom, cacheFrom, precalc>>
 
 (* v.value = x  /  v.value[sl] = x *)
 AssignValue(v, how) ==
@@ -172,7 +178,7 @@ AssignValue(v, how) ==
   /\ valDirty' = [valDirty EXCEPT ![v] = TRUE]
   /\ use' = NoUse
   /\ last' = [name |-> "AssignValue", args |-> <<v, how>>]
-  /\ UNCHANGED <<bcAlive, bcC, bcDirty, everShared, alive, bcOf, ghostFrom, cacheFrom, precalc>>
+  /\ UNCHANGED <<bcAlive, bcC, bcDirty, bcPer, everShared, alive, bcOf, ghostFrom, cacheFrom, precalc>>
 
 (* v.update_value(w): the whole array of w (ghost layer included) is copied into v *)
 UpdateValue(v, w) ==
@@ -182,7 +188,7 @@ UpdateValue(v, w) ==
   /\ valDirty' = [valDirty EXCEPT ![v] = TRUE]
   /\ use' = NoUse
   /\ last' = [name |-> "UpdateValue", args |-> <<v, w>>]
-  /\ UNCHANGED <<bcAlive, bcC, bcDirty, everShared, alive, bcOf, cacheFrom, precalc>>
+  /\ UNCHANGED <<bcAlive, bcC, bcDirty, bcPer, everShared, alive, bcOf, cacheFrom, precalc>>
 
 (* w = v.copy(): full array copied as it is, BC object deep-copied (same content, same flags) *)
 Copy(v, w, b) ==
@@ -195,6 +201,7 @@ Copy(v, w, b) ==
   /\ ghostFrom' = [ghostFrom EXCEPT ![w] = ghostFrom[v]]
   /\ cacheFrom' = [cacheFrom EXCEPT ![w] = bcC[bcOf[v]]]
   /\ use' = NoUse
+  /\ bcPer' = [bcPer EXCEPT ![b] = bcPer[bcOf[v]]]
   /\ last' = [name |-> "Copy", args |-> <<v, w, b>>]
 
 (* r = op(v [, w | scalar]) / funceval: new interior values, deep copy of v's BC object,
@@ -209,6 +216,7 @@ Arith(v, r, b, op) ==
   /\ ghostFrom' = [ghostFrom EXCEPT ![r] = <<FreshInt, bcC[bcOf[v]]>>]
   /\ cacheFrom' = [cacheFrom EXCEPT ![r] = bcC[bcOf[v]]]
   /\ use' = NoUse
+  /\ bcPer' = [bcPer EXCEPT ![b] = bcPer[bcOf[v]]]
   /\ last' = [name |-> "Arith", args |-> <<v, r, b, op>>]
 
 \* effect of apply_BCs on variable v, given the interior content ic it has at that moment
@@ -224,7 +232,7 @@ ApplyBCs(v) ==
   /\ Applied(v, intC[v])
   /\ use' = NoUse
   /\ last' = [name |-> "ApplyBCs", args |-> <<v>>]
-  /\ UNCHANGED <<bcAlive, bcC, everShared, alive, bcOf, intC, precalc>>
+  /\ UNCHANGED <<bcAlive, bcC, bcPer, everShared, alive, bcOf, intC, precalc>>
 
 NeedsApply(v) == bcDirty[bcOf[v]] # {} \/ valDirty[v]
 
@@ -243,7 +251,7 @@ SolvePDEWith(v, entry) ==
             ELSE /\ intC' = [intC EXCEPT ![v] = FreshInt]
                  /\ Applied(v, FreshInt)
   /\ last' = [name |-> "SolvePDE", args |-> <<v>>]
-  /\ UNCHANGED <<bcAlive, bcC, everShared, alive, bcOf, precalc>>
+  /\ UNCHANGED <<bcAlive, bcC, bcPer, everShared, alive, bcOf, precalc>>
 SolvePDE(v) == SolvePDEWith(v, NeedsApply(v))
 
 (* r = solveExplicitPDE(v, dt, RHS): entry check on v ; new variable r SHARING v's BC object *)
@@ -262,7 +270,7 @@ SolveExplicitWith(v, r, entry) ==
   /\ everShared' = [everShared EXCEPT ![bcOf[v]] = TRUE]
   /\ use' = NoUse
   /\ last' = [name |-> "SolveExplicit", args |-> <<v, r>>]
-  /\ UNCHANGED <<bcAlive, bcC>>
+  /\ UNCHANGED <<bcAlive, bcC, bcPer>>
 SolveExplicit(v, r) == SolveExplicitWith(v, r, NeedsApply(v))
 
 (* r = solveMatrixPDE(mesh, M, RHS): a new variable with its own default BC object *)
@@ -277,6 +285,7 @@ SolveMatrix(r, b) ==
   /\ ghostFrom' = [ghostFrom EXCEPT ![r] = <<FreshInt, None>>]
   /\ cacheFrom' = [cacheFrom EXCEPT ![r] = FreshBC]
   /\ use' = NoUse
+  /\ bcPer' = [bcPer EXCEPT ![b] = {}]
   /\ last' = [name |-> "SolveMatrix", args |-> <<r, b>>]
 
 (* any term / mean / gradient / divergence / boundary-term / location builder: pure *)
@@ -284,7 +293,7 @@ Build(v, kind) ==
   /\ alive[v]
   /\ use' = NoUse
   /\ last' = [name |-> "Build", args |-> <<v, kind>>]
-  /\ UNCHANGED <<bcAlive, bcC, bcDirty, everShared, alive, bcOf, intC, ghostFrom, cacheFrom,
+  /\ UNCHANGED <<bcAlive, bcC, bcDirty, bcPer, everShared, alive, bcOf, intC, ghostFrom, cacheFrom,
                  valDirty, precalc>>
 
 (* the variable goes out of scope (frees a slot of the bounded pool) *)
@@ -295,7 +304,7 @@ Drop(v) ==
        bcAlive' = [bcAlive EXCEPT ![b] = UsersOf(b) # {v}]
   /\ use' = NoUse
   /\ last' = [name |-> "Drop", args |-> <<v>>]
-  /\ UNCHANGED <<bcC, bcDirty, everShared, bcOf, intC, ghostFrom, cacheFrom, valDirty, precalc>>
+  /\ UNCHANGED <<bcC, bcDirty, bcPer, everShared, bcOf, intC, ghostFrom, cacheFrom, valDirty, precalc>>
 
 Ops == {"add", "mul_scalar", "neg", "funceval"}
 
@@ -326,14 +335,14 @@ Projection ==
    vars |-> [v \in AliveVars |->
                [bc |-> bcOf[v], valDirty |-> valDirty[v], hasCache |-> HasCache(v),
                 cacheFresh |-> CacheFresh(v), ghostFresh |-> GhostFresh(v), precalc |-> precalc[v]]],
-   bcs |-> [b \in {x \in BCs : bcAlive[x]} |-> [dirty |-> bcDirty[b], shared |-> everShared[b]]],
+   bcs |-> [b \in {x \in BCs : bcAlive[x]} |-> [dirty |-> bcDirty[b], per |-> bcPer[b], shared |-> everShared[b]]],
    use |-> use]
 \* (simulation mode, one worker) print every state of every behaviour
 Emit == PrintT("@@ " \o ToJson(Projection))
 \* (exhaustive mode, one worker, as ACTION_CONSTRAINT) print every transition of the state graph:
 \* source and target state keys and the projection of the target, so that the harness can
 \* replay every (state, action) pair of the bounded model along a shortest path
-StateKey == ToJson(<<bcAlive, bcC, bcDirty, everShared, alive, bcOf, intC, ghostFrom, cacheFrom,
+StateKey == ToJson(<<bcAlive, bcC, bcDirty, bcPer, everShared, alive, bcOf, intC, ghostFrom, cacheFrom,
                      valDirty, precalc, use>>)
 EmitEdge == PrintT("@@ " \o ToJson([src |-> StateKey, dst |-> StateKey', step |-> Projection']))
 Symm == Permutations(Vars) \cup Permutations(BCs)
@@ -342,7 +351,7 @@ Bounded == TLCGet("level") <= MaxDepth
 -----------------------------------------------------------------------------
 (* properties *)
 TypeOK ==
-  /\ \A b \in BCs : bcDirty[b] \subseteq Sides
+  /\ \A b \in BCs : bcDirty[b] \subseteq Sides /\ bcPer[b] \subseteq Sides
   /\ \A v \in AliveVars : bcAlive[bcOf[v]]
 
 \* C09: a solve never reads a cache that was never built
